@@ -1,0 +1,13 @@
+//go:build verif
+
+package cmd
+
+// VerifDraw, when set by a verification harness, is told every random draw made by the
+// selection algorithms of the commands: the call site, the range of the draw and its value.
+var VerifDraw func(site string, n int, v int)
+
+func verifDraw(site string, n int, v int) {
+	if VerifDraw != nil {
+		VerifDraw(site, n, v)
+	}
+}
